@@ -375,6 +375,16 @@ def runCsLine (r : Report) (sec : Nat) (cfg : CsCfg) (l : Line) : Report :=
         | none => r
       let r := labelCheck r sec l.idx "cs" (kv? a "mut") (cfg.strict && gated && req.uri.isEmpty) obs.ran (showResp obs)
       -- encrypted round trip, for verified encrypted requests whose whole body the framing delivers
+      let r := match hdrRes with
+        | .ok h =>
+          if cfg.strict ∧ gated ∧ req.uri.isEmpty ∧ verifySignature env cfg.tol req h = 0 ∧ h.contentType = 1 ∧ req.cl ≠ 0 then
+            let C := oracleCipher table 0xEE
+            let r := if (req.body.length : Int) > cfg.limit ∧ cfg.limit > 0 then r.addCover s!"cs-encrypted-over-limit-{frame}" else r
+            match cryptSeenMonitor C h.key req.cl req.body obs with
+            | some msg => r.violation sec l.idx s!"{msg} [verified type=1 request, framing {frame}, limit {cfg.limit}] [{showResp obs}]"
+            | none => r
+          else r
+        | _ => r
       match hdrRes with
       | .ok h =>
         if gated ∧ verifySignature env cfg.tol req h = 0 ∧ h.contentType = 1 ∧ h.key = ak then
@@ -434,12 +444,165 @@ def runCryptLine (r : Report) (sec : Nat) (key : Bytes) (limit : Int) (l : Line)
       let r := r.addCover (if m0.ran then (if reply.isEmpty then "crypt-empty-reply" else if m0.status = 500 then "crypt-reply-500" else "crypt-reply-encrypted")
                            else if m0.panic then "crypt-panic" else s!"crypt-status-{m0.status}")
       let r := compareResp r sec l.idx m0 m1 obs
+      -- limit classes: where the body ends relative to the limit in force, per framing
+      let cap : Int := if cl > 0 then limit else (if limit > 0 then limit else maxBytes)
+      let r := if cap > 0 ∧ cap < 100000 ∧ cl ≠ 0 then
+          let n : Int := body.length
+          let cls := if n + 1 = cap then "one-below-limit" else if n = cap then "at-limit" else if n = cap + 1 then "one-over-limit"
+                     else if n > cap + 1 then "far-over-limit" else "below-limit"
+          let r := r.addCover s!"crypt-limit-{cls}-{frame}"
+          -- an over-limit body whose first `cap` bytes decrypt on their own: a cut at the limit would go unnoticed downstream
+          if n > cap ∧ (decryptWhole C key (body.take cap.toNat)).isSome ∧ C.keyOk key then r.addCover s!"crypt-over-limit-prefix-decrypts-{frame}" else r
+        else r
+      let r := if cl > 0 ∧ (body.length : Int) < cl then r.addCover "crypt-declared-but-short" else r
+      let r := match cryptSeenMonitor C key cl body obs with
+        | some msg => r.violation sec l.idx s!"{msg} [framing {frame}, limit {limit}] [{showResp obs}]"
+        | none => if cl ≠ 0 ∧ obs.ran then r.addCover s!"crypt-seen-is-decryption-of-whole-body-{frame}" else r
       if C.keyOk key ∧ wholeBody limit cl body then
         match cryptMonitor C key (properlyEncrypted C key body) reply obs with
         | some msg => r.violation sec l.idx s!"{msg} [framing {frame}] [{showResp obs}]"
         | none => if (properlyEncrypted C key body).isSome then r.addCover s!"crypt-roundtrip-checked-{frame}" else r
       else r
     | _, _ => fail "unparsable-line"
+  | _ => fail "bad-op"
+
+/-! ### rest: servers built through the public API, requests through the bound router -/
+
+def parseRouteOption (t : String) : Option RouteOption :=
+  if t = "jwt" then some .withJwt
+  else if t = "jwtt" then some (.withJwtTransition false)
+  else if t = "sig" then some (.withSignature true true)
+  else if t = "sigl" then some (.withSignature false true)
+  else if t = "sign" then some (.withSignature false false)
+  else if t = "sigs" then some (.withSignature true false)
+  else if t = "pfx" ∨ t = "prio" ∨ t = "mb" ∨ t = "to" then some .other
+  else none
+
+def parseGroup (g : String) : Option (List RouteOption) :=
+  if g = "-" then some [] else (g.splitOn "+").mapM parseRouteOption
+
+def parseMw (s : String) : Option MwConf :=
+  match s.toList.map (fun ch => decide (ch = '1')) with
+  | [a, b, c, d, e, f, g, h, i, j, k] =>
+    if s.toList.all (fun ch => ch = '0' ∨ ch = '1') then
+      some { trace := a, log := b, prometheus := c, maxConns := d, breaker := e, shedding := f, timeout := g,
+             recover := h, metrics := i, maxBytes := j, gunzip := k }
+    else none
+  | _ => none
+
+structure RestCfg where
+  custom : Option (List String)
+  mw     : MwConf
+  uses   : List String
+  cb     : Bool
+  groups : List (List RouteOption)
+
+structure RestSt where
+  bound : Option Nat := none      -- after `bind`: the number of groups that were bound
+
+def parseRestCfg (cfg : List String) : Option RestCfg := do
+  let chainKind ← kv? cfg "chain"
+  let mw ← parseMw (← kv? cfg "mw")
+  let ncm := kvNat cfg "ncm" 0
+  let nuse := kvNat cfg "nuse" 0
+  let groups ← ((← kv? cfg "groups").splitOn ",").mapM parseGroup
+  let custom ← if chainKind = "custom" then some (some ((List.range ncm).map fun i => s!"cm{i}"))
+               else if chainKind = "native" then some none else none
+  pure { custom := custom, mw := mw, uses := (List.range nuse).map fun i => s!"use{i}", cb := kvNat cfg "cb" 0 = 1, groups := groups }
+
+def groupName (o : RouteOpts) : String :=
+  (if o.jwt then (if o.prev then "jwt-transition" else "jwt") else "nojwt") ++ "-" ++
+  (if o.sig then (if o.sigKeys then (if o.sigStrict then "sig-strict" else "sig-loose") else (if o.sigStrict then "sig-strict-nokeys" else "sig-nokeys")) else "nosig")
+
+def runRestLine (r : Report) (sec : Nat) (cfg : RestCfg) (st : RestSt) (l : Line) : Report × RestSt :=
+  let fail (msg : String) := (r.mismatch sec l.idx msg (joinSp l.op), st)
+  let chainName := match cfg.custom with
+    | some c => if c.isEmpty then "custom-empty" else "custom-with-middlewares"
+    | none => if (nativeChain cfg.mw).length = 11 then "native-all" else if (nativeChain cfg.mw).isEmpty then "native-none"
+              else if (nativeChain cfg.mw).length = 10 then "native-one-off" else "native-some"
+  match l.op with
+  | ["bind"] =>
+    -- bindRoutes stops at the first group whose verifier cannot be built
+    let firstBad := (cfg.groups.map fun g => (bindRoute cfg.custom cfg.mw (applyOptions g) cfg.uses).isNone).findIdx? (· = true)
+    let model := match firstBad with | some _ => "err=signature-config" | none => "ok"
+    let r := { r with ops := r.ops + 1 }
+    let r := r.addCover (if firstBad.isSome then "rest-bind-error-strict-signature-without-keys" else "rest-bind-ok")
+    let r := r.addCover s!"rest-chain-{chainName}"
+    let r := cfg.groups.foldl (fun acc g => acc.addCover s!"rest-group-{groupName (applyOptions g)}") r
+    let r := if cfg.groups.any (fun g => g = [.withJwtTransition false, .withJwt] ∨ (g.contains (.withJwtTransition false) ∧ g.getLast? = some .withJwt))
+             then r.addCover "rest-jwt-after-transition-keeps-previous-secret" else r
+    let r := if joinSp l.obs ≠ model then r.mismatch sec l.idx model (joinSp l.obs) else r
+    (r, { bound := some (firstBad.getD cfg.groups.length) })
+  | "req" :: a =>
+    let o := l.obs
+    match st.bound, (kv? a "g").bind String.toNat?, (kv? a "now").bind String.toInt?, (kv? a "body").bind unhex with
+    | some nbound, some g, some now, some body =>
+      match cfg.groups[g]? with
+      | none => fail "bad-group"
+      | some gopts =>
+        let opts := applyOptions gopts
+        let facts : Option (TokenFacts String) := do
+          let alg ← kv? o "alg"
+          let algS ← if alg = "-" then some none else (unhexStr alg).map some
+          let claims ← parsePairs (← kv? o "claims")
+          let sigcur := kv? o "sigcur" = some "1"
+          let sigprev := kv? o "sigprev" = some "1"
+          pure { present := kv? o "present" = some "1", segs := (← (← kv? o "segs").toNat?),
+                 hdrOk := kv? o "hdr" = some "1", clmOk := kv? o "clm" = some "1", alg := algS,
+                 sigOk := fun s => (s = "cur" && sigcur) || (s = "prev" && sigprev),
+                 exp := (← parseTimeClaim (← kv? o "exp")), nbf := (← parseTimeClaim (← kv? o "nbf")),
+                 iat := (← parseTimeClaim (← kv? o "iat")), claims := claims }
+        let obsv : Option (Bool × Nat × List (String × String) × Nat × Nat × Nat × Nat × Bytes × Bool) := do
+          pure ((← kv? o "ran") ≠ "0", (← (← kv? o "status").toNat?), (← parsePairs (← kv? o "ctx")), (← (← kv? o "cm").toNat?),
+                (← (← kv? o "use").toNat?), (← (← kv? o "ucb").toNat?), (← (← kv? o "scb").toNat?), (← unhex (← kv? o "seen")),
+                (← kv? o "csok") = "1")
+        match facts, obsv with
+        | some f, some (ran, status, ctx, cm, use, ucb, scb, seen, covered) =>
+          let r := { r with ops := r.ops + 1 }
+          let prevName := if opts.prev then "prev" else ""
+          let authOut := (authorize (jwtVerify f now) {} "cur" prevName 0).2
+          let credOk := credentialOk f now "cur" prevName
+          let isPost := kv? a "r" = some "b"
+          let method := if isPost then "POST" else "GET"
+          let gated := gatedMethods.contains method
+          let sentBody := if isPost then body else []
+          let count (p : String) (l : List String) := (l.filter (fun n => n.startsWith p)).length
+          -- the model: the chain bound to the route, the two gates' verdicts, everything else passes
+          let model : ChainRun × List (String × String) × Nat × Nat :=
+            if g < nbound then
+              match bindRoute cfg.custom cfg.mw opts cfg.uses with
+              | some chn =>
+                let run := runChain (gateVerdict (authVerdict authOut) (csGateVerdict opts.sigStrict cfg.cb gated covered)) chn
+                let mctx := if run.ran ∧ opts.jwt then authOut.ctx else []
+                let mucb := if cfg.cb ∧ run.saw.contains authorizeName ∧ !authOut.ran then 1 else 0
+                let mscb := if cfg.cb ∧ run.saw.contains contentSecurityName ∧ gated ∧ !covered then 1 else 0
+                (run, mctx, mucb, mscb)
+              | none => ({ saw := [], ran := false, status := 404 }, [], 0, 0)
+            else ({ saw := [], ran := false, status := 404 }, [], 0, 0)
+          let run := model.1
+          let mseen := if run.ran then sentBody else []
+          let show_ (ran : Bool) (status : Nat) (ctx : List (String × String)) (cm use ucb scb : Nat) (seen : Bytes) :=
+            s!"ran={if ran then 1 else 0} status={status} ctx={showPairs ctx} cm={cm} use={use} ucb={ucb} scb={scb} seen={toHex seen}"
+          let mshow := show_ run.ran run.status model.2.1 (count "cm" run.saw) (count "use" run.saw) model.2.2.1 model.2.2.2 mseen
+          let oshow := show_ ran status ctx cm use ucb scb seen
+          let r := if mshow ≠ oshow then r.mismatch sec l.idx mshow oshow else r
+          -- cover
+          let r := r.addCover s!"rest-tok-{kvStr a "tok"}"
+          let r := r.addCover s!"rest-cs-{kvStr a "cs"}"
+          let r := r.addCover s!"rest-{chainName}-{groupName opts}-{if run.ran then "ran" else s!"status-{run.status}"}"
+          let r := if opts.jwt ∧ kvStr a "tok" = "other-group" ∧ !run.ran then r.addCover "rest-token-of-another-group-rejected" else r
+          let r := if opts.jwt ∧ kvStr a "tok" = "prev" then r.addCover (if opts.prev then "rest-previous-secret-accepted-in-transition" else "rest-previous-secret-rejected-without-transition") else r
+          let r := if !opts.jwt ∧ !(opts.sig ∧ opts.sigKeys) ∧ run.ran ∧ !f.present then r.addCover "rest-undeclared-route-open" else r
+          let r := if g ≥ nbound then r.addCover "rest-request-to-unbound-group" else r
+          let r := if !run.ran ∧ cfg.uses.length > 0 ∧ g < nbound then r.addCover "rest-use-middlewares-behind-the-gate" else r
+          -- the property, on what the implementation did
+          if g < nbound then
+            match restMonitor opts gated credOk covered f.claims cfg.uses.length ran status ctx use with
+            | some msg => (r.violation sec l.idx s!"{msg} [chain {chainName}, group {groupName opts}, tok={kvStr a "tok"} cs={kvStr a "cs"}] [{oshow}]", st)
+            | none => (r, st)
+          else (r, st)
+        | _, _ => fail "unparsable-observation"
+    | _, _, _, _ => fail "bad-op"
   | _ => fail "bad-op"
 
 /-! ### text -/
@@ -503,6 +666,10 @@ def runSection (r : Report) (s : Section) : Report :=
     let h0 : Hist := if rd > 0 then { resetTime := t0, resetDuration := rd } else { resetTime := t0 }
     (s.lines.foldl (fun (acc : Report × TpSt) l => runTpLine acc.1 s.idx acc.2 l) (r, { hist := h0, clock := t0 })).1
   | some "text" => s.lines.foldl (fun acc l => runTextLine acc s.idx l) r
+  | some "rest" =>
+    match parseRestCfg s.cfg with
+    | some cfg => (s.lines.foldl (fun (acc : Report × RestSt) l => runRestLine acc.1 s.idx cfg acc.2 l) (r, {})).1
+    | none => r.mismatch s.idx 0 "bad-section" (joinSp s.cfg)
   | _ => r.mismatch s.idx 0 "bad-section" (joinSp s.cfg)
 
 def driver (secs : List Section) : Report := secs.foldl runSection {}
